@@ -1,7 +1,7 @@
 """C18 — timers fire once, on time, in order; cancel semantics; callbacks may call in; periodic services persist."""
 import json, os, re
 import vlib
-from props import c17_pair
+from props import c17_pair, c18_clock
 
 MANIFEST = dict(
     level=("proof", "Coq theorems over an LTS read off timer.c/clock.c (sorted stable active list, detached expired "
@@ -776,7 +776,8 @@ def crosscheck_extraction(ctx, lines, mod):
 
 def run(ctx):
     ctx.level = "proof"
-    proved = vlib.prove(ctx, ["Properties_C18.v", "Properties_C18_gids.v", "Properties_C18_stir.v"], facts=["timer", "gids"])
+    proved = vlib.prove(ctx, ["Properties_C18.v", "Properties_C18_gids.v", "Properties_C18_stir.v", "Properties_C18_clock.v"],
+                        facts=["timer", "gids", "clockfun"])
     ctx.log("proofs:", "ok" if proved else "BROKEN: " + getattr(ctx, "broken_obligation", "?"))
     ctx.cov["rule"] = (
         "proof: Properties_C18.v over TimerModel (constants regenerated from timer.c/clock.c/random.c/munge_defs.h); "
@@ -797,6 +798,8 @@ def run(ctx):
         "judged by 'after every refresh returns, whatever the rebuild did, a refresh timer is pending within one "
         "interval; due timers fire once and never early; gids_destroy finds the recorded timer pending'; "
         "non-trivial = every case (distinct by content)")
+    # clock.c on boundary readings: the real functions, their translation and the model inside Coq, the property itself
+    c18_clock.clock_phase(ctx, proved)
     oracle = vlib.build_oracle(ctx, "timer")
     exe, err = build_harness(ctx)
     if exe is None:
